@@ -93,6 +93,11 @@ func (s *GeometryScanner) Scan(d interface{}) error {
 
 	data = d
 	if s.sridInPrefix {
+		if d == nil {
+			// NULL value, same as the scanner without the prefix
+			return nil
+		}
+
 		raw, ok := d.([]byte)
 		if !ok {
 			return ErrUnsupportedDataType
